@@ -60,9 +60,13 @@ fn gen_descriptor(t: &mut Tape, names: &[String]) -> String {
     if d.is_empty() || d.split_whitespace().next().is_none() {
         d = "a".into();
     }
-    match t.below(4) {
-        0 => d.push('.'),
-        1 => d.push_str(".*"),
+    match t.below(10) {
+        0 | 1 => d.push('.'),
+        2 | 3 => d.push_str(".*"),
+        // redundant suffixes may be repeated and mixed
+        4 => d.push_str(".."),
+        5 => d.push_str(".*."),
+        6 => d.push_str("..*"),
         _ => {}
     }
     d
@@ -84,7 +88,7 @@ impl Check for C19 {
     }
     fn rule(&self) -> String {
         "probe document: k parallel regions, region i has [descriptor-list_i -> mark hit_i] followed by [* -> mark miss_i] (both targetless), so every host event tests k descriptor lists; names = 1-4 tokens from {a,b,ab,A,e-acute,u-umlaut,CJK,x1,empty} joined by '.', \
-         descriptors = token/character prefixes of the names or random token sequences with optional '.' / '.*' suffix, or '*'. Oracle: trace equality with the reference interpreter whose matching is the W3C token-prefix rule; \
+         descriptors = token/character prefixes of the names or random token sequences with optional '.' / '.*' suffix (also repeated and mixed: '..', '.*.', '..*'), or '*'. Oracle: trace equality with the reference interpreter whose matching is the W3C token-prefix rule; \
          thorough adds the exhaustive product of all descriptors of <= 2 tokens (3 suffix spellings) x all names of <= 3 tokens over a 6-token alphabet. \
          Non-trivial = a name/descriptor pair shares a character prefix that is not a token prefix, or contains a multi-byte token; distinct = hash of document + events."
             .into()
